@@ -18,6 +18,7 @@ import (
 	crand "crypto/rand"
 	"crypto/sha256"
 	stdx509 "crypto/x509"
+	"errors"
 	"fmt"
 	"net/http"
 	"net/http/httptest"
@@ -34,6 +35,7 @@ import (
 	"github.com/google/certificate-transparency-go/internal/verifkit"
 	"github.com/google/certificate-transparency-go/jsonclient"
 	"github.com/google/certificate-transparency-go/loglist3"
+	"github.com/google/certificate-transparency-go/trillian/ctfe/cache/lru"
 	"github.com/google/certificate-transparency-go/trillian/util"
 	"github.com/google/certificate-transparency-go/x509"
 	"github.com/google/certificate-transparency-go/x509util"
@@ -889,10 +891,143 @@ func (e *v6Env) sthHammer(readers, total int) {
 	e.out.Add("class:sth-hammer-root-change", int64(changes))
 }
 
+// v6Store is an issuance-chain storage (content addressed) whose first `faults` Add calls fail.
+type v6Store struct {
+	mu     sync.Mutex
+	m      map[string][]byte
+	faults int
+}
+
+func (s *v6Store) FindByKey(_ context.Context, key []byte) ([]byte, error) {
+	s.mu.Lock()
+	defer s.mu.Unlock()
+	if c, ok := s.m[string(key)]; ok {
+		return c, nil
+	}
+	return nil, errors.New("v6Store: issuance chain not found")
+}
+
+func (s *v6Store) Add(_ context.Context, key []byte, chain []byte) error {
+	s.mu.Lock()
+	defer s.mu.Unlock()
+	if s.faults > 0 {
+		s.faults--
+		return errors.New("v6Store: injected storage fault")
+	}
+	s.m[string(key)] = append([]byte(nil), chain...)
+	return nil
+}
+
+// externalStorageRestart: a log that keeps issuance chains outside the backend (indirect issuance-chain service over a chain
+// storage and an LRU cache). A submission is retried after a storage fault until it gets an SCT; the log is sequenced; then a
+// *second* front end over the same storage and backend with a cold cache (a restart / another replica / an evicted entry) must
+// still serve the entry, found by the client-computed leaf hash, decoding to the submitted certificate and chain.
+// No model lines: the storage is not part of the C06 model; this is the property evaluated on the implementation.
+func v6ExternalStorageRestart(t *testing.T, out *verifkit.Out, r *verifkit.Rand, name string) {
+	base := time.Date(2024, 1, 1, 0, 0, 0, 0, time.UTC)
+	pki := verifkit.NewMiniPKI(base)
+	backend := verifkit.NewRefLog(uint64(base.UnixNano()))
+	store := &v6Store{m: map[string][]byte{}, faults: r.Intn(3)}
+	key, err := ecdsa.GenerateKey(elliptic.P256(), crand.Reader)
+	if err != nil {
+		t.Fatal(err)
+	}
+	pubDER, _ := stdx509.MarshalPKIXPublicKey(&key.PublicKey)
+	pool := x509util.NewPEMCertPool()
+	pool.AppendCertsFromPEM([]byte(pki.RootPEM()))
+	clock := &v6Clock{now: base}
+	frontEnd := func() *client.LogClient {
+		svc := newIndirectIssuanceChainService(store, lru.NewIssuanceChainCache(lru.CacheOption{Size: 16, TTL: time.Hour}))
+		li := vLogInfo(backend, key, clock, svc, func(_ *InstanceOptions, v *CertValidationOpts) { v.trustedRoots = pool })
+		lc, err := client.New("https://log.example/test", &http.Client{Transport: v6Transport{h: li.Handlers("test")}}, jsonclient.Options{PublicKeyDER: pubDER})
+		if err != nil {
+			t.Fatal(err)
+		}
+		return lc
+	}
+	ctx := context.Background()
+	a := frontEnd()
+	nCerts := 1 + r.Intn(3)
+	type sub struct {
+		chain [][]byte
+		sct   *ct.SignedCertificateTimestamp
+	}
+	var subs []sub
+	for i := 0; i < nCerts; i++ {
+		clock.Advance(time.Duration(1+r.I64n(5000)) * time.Millisecond)
+		precert := r.Intn(3) == 0
+		chain := [][]byte{pki.Issue(int64(100+i), precert, true), pki.IntDER}
+		var sct *ct.SignedCertificateTimestamp
+		for try := 0; try < 5 && sct == nil; try++ { // a submitter retries a 5xx
+			var err error
+			if precert {
+				sct, err = a.AddPreChain(ctx, v6ASN1(chain))
+			} else {
+				sct, err = a.AddChain(ctx, v6ASN1(chain))
+			}
+			if err != nil {
+				sct = nil
+				out.Count("class:external-storage-add-refused")
+			}
+			time.Sleep(2 * time.Millisecond) // the cache is written asynchronously
+		}
+		if sct == nil {
+			out.Fail(name+" external-storage add-chain", "no SCT after 5 attempts")
+			return
+		}
+		subs = append(subs, sub{chain, sct})
+		out.Count("class:external-storage-add")
+	}
+	backend.Sequence(-1, uint64(clock.Now().UnixNano()))
+	b := frontEnd() // cold cache, same storage and backend
+	sth, err := b.GetSTH(ctx)
+	if err != nil {
+		out.Fail(name+" external-storage get-sth", err.Error())
+		return
+	}
+	for i, s := range subs {
+		k := fmt.Sprintf("%s external-storage retry-after-storage-fault cert%d", name, i)
+		lh, err := ctutil.LeafHash(v6Parse(s.chain), s.sct, false)
+		if err != nil {
+			out.Fail(k, err.Error())
+			continue
+		}
+		rsp, err := b.GetProofByHash(ctx, lh[:], sth.TreeSize)
+		if err != nil {
+			out.Fail(k, "sct_findable: an SCT was issued but the certificate is not found by its leaf hash: "+err.Error())
+			continue
+		}
+		ents, err := b.GetEntries(ctx, rsp.LeafIndex, rsp.LeafIndex)
+		if err != nil || len(ents) != 1 {
+			out.Fail(k, fmt.Sprintf("sct_findable: an SCT was issued and the leaf is sequenced at index %d, but get-entries for it fails on a front end with a cold chain cache: %v", rsp.LeafIndex, err))
+			continue
+		}
+		en := ents[0]
+		var got []byte
+		if en.Precert != nil {
+			got = en.Precert.Submitted.Data
+		} else if en.X509Cert != nil {
+			got = en.X509Cert.Raw
+		}
+		want := [][]byte{pki.IntDER, pki.RootDER}
+		ok := bytes.Equal(got, s.chain[0]) && len(en.Chain) == len(want)
+		for j := 0; ok && j < len(want); j++ {
+			ok = bytes.Equal(en.Chain[j].Data, want[j])
+		}
+		if !ok {
+			out.Fail(k, "sct_findable: the stored entry does not decode to the submitted certificate and chain")
+		}
+		out.Count("class:external-storage-read-after-restart")
+	}
+}
+
 func TestVerifC06(t *testing.T) {
 	out := verifkit.Open()
 	defer out.Close()
 	r := verifkit.NewRand(verifkit.Seed() ^ 0xc06)
+	for i := 0; i < verifkit.N(12, 120); i++ {
+		v6ExternalStorageRestart(t, out, r.Fork(), fmt.Sprintf("seed%d ext%d", verifkit.Seed(), i))
+	}
 	nHist := verifkit.N(3, 40)
 	for h := 0; h < nHist; h++ {
 		e := newV6Env(t, out, r.Fork(), fmt.Sprintf("seed%d hist%d", verifkit.Seed(), h))
